@@ -200,8 +200,8 @@ Definition build_tm (state_re : token -> bool) (A : automaton) : option ttm :=
 
 (* ---- the four parsers ---- *)
 Definition parse_dfa_with (state_re : token -> bool) (text : list line) : option tdfa :=
-  (* parse_dfa does not pass a keyword set: the parser falls back to the keywords of all four formats *)
-  match parse_automaton state_re re_any [kw_input_symbols; kw_epsilon; kw_stack_symbols; kw_tape_symbols; kw_blank; kw_accept; kw_reject] text with Some A => build_dfa state_re A | None => None end.
+  (* parse_dfa passes dfa_keywords() (fix F18; before it the parser fell back to the keywords of all four formats) *)
+  match parse_automaton state_re re_any [kw_input_symbols] text with Some A => build_dfa state_re A | None => None end.
 Definition parse_dfa (text : list line) := parse_dfa_with re_word text.
 Definition parse_nfa (text : list line) : option tnfa :=
   match parse_automaton re_word re_any [kw_input_symbols; kw_epsilon] text with Some A => build_nfa re_word A | None => None end.
